@@ -116,14 +116,26 @@ def forbidden_tokens(relpaths):
 
 
 def proof_sources(prop_module_rel):
-    """the SqlProps file plus every SqlProofs/SqlModel (non-generated) file: scanned for forbidden tokens"""
-    out = [prop_module_rel]
-    for d in ('SqlProofs', 'SqlModel'):
-        for root, _, files in os.walk(os.path.join(LEAN, d)):
-            for fn in files:
-                if fn.endswith('.lean'):
-                    out.append(os.path.relpath(os.path.join(root, fn), LEAN))
-    return out
+    """the SqlProps file plus every project file it imports transitively (generated tables excluded):
+    these are scanned for forbidden tokens (sorry, admit, axiom, native_decide, …)"""
+    seen = []
+    todo = [prop_module_rel]
+    while todo:
+        rel = todo.pop()
+        if rel in seen:
+            continue
+        path = os.path.join(LEAN, rel)
+        if not os.path.exists(path):
+            continue
+        seen.append(rel)
+        with open(path, encoding='utf-8') as f:
+            for line in f:
+                m = re.match(r'^import\s+(Sql[\w\.]+)', line)
+                if m:
+                    todo.append(m.group(1).replace('.', '/') + '.lean')
+                elif line.strip() and not line.startswith('import') and not line.startswith('--') and not line.startswith('/-'):
+                    break
+    return [r for r in seen if '/Generated/' not in r]
 
 
 def audit_axioms(module, thms):
